@@ -700,7 +700,17 @@ def prove(ev, assumptions, goal, timeout_ms=60000):
         s.add(a)
     s.add(z3.Not(goal))
     t0 = time.time()
-    r = s.check()
+    # (solving a re-parsed copy: empirically z3 5.1 preprocesses the parsed benchmark far better than the
+    #  incrementally asserted one -- 3 s vs >100 s on the ray/box lemma)
+    try:
+        s2 = z3.Solver()
+        s2.set("timeout", timeout_ms)
+        s2.from_string(s.to_smt2())
+        r = s2.check()
+        if r == z3.sat:
+            s = s2
+    except z3.Z3Exception:
+        r = s.check()
     dt = time.time() - t0
     if r == z3.unsat:
         return "proved", None, dt, s
